@@ -74,15 +74,20 @@ def run(tier):
     wd = common.workdir("c08")
     scs = []; extra_scripts = []
     nb = 4 if tier == "quick" else 20
-    for bi in range(nb):
+    for bi in range(nb + 2):
         comp = (0, 2)[bi % 2]; dic = bi % 3 == 2
         big = bi % 4 == 3
+        edge = bi >= nb        # stored chunk sizes exactly on / one off the library's 32 KiB block size
         sz = (lambda: rnd.choice([25, 80, 300])) if not big else (lambda: rnd.choice([200, 33000, 40000]))
         kw = dict(comp_type=comp, hash_type=1, chunk_hash_type=rnd.choice([1, 3]), level=3)
         cB = [corpus.text(rnd, 30) if dic else b""] + [(corpus.text(rnd, sz()) if rnd.random() < 0.7 else corpus.rand(rnd, sz())) for _ in range(rnd.randrange(4, 8))]
+        if edge:
+            dic = False; cB = [b""] + corpus.bufedge_chunks(rnd, comp)
         B = ref.build_file(cB, **kw)[0]
         hB = ref.parse_header(B)
-        srcs = sources_for(rnd, cB, kw, big)
+        srcs = sources_for(rnd, cB, kw, big or edge)
+        if edge:
+            srcs = srcs[:6]
         targets = [("empty", b"")]
         b = bytearray(B)
         for (a, z) in delta.extents(hB)[1::2]:
